@@ -3,6 +3,10 @@ import AcraModel.Keystore.V2Store
 import AcraModel.Keystore.Lemmas
 import AcraModel.Keystore.RingLemmas
 import AcraModel.Keystore.V1Lemmas
+import AcraModel.Keystore.RefineV1Step
+import AcraModel.Keystore.RefineV2Step
+import AcraModel.Keystore.RefineCacheStep
+import AcraModel.Keystore.RefineCacheMono3
 /-!
 # C06 — rotation keeps old data readable; destruction removes exactly the chosen key
 
@@ -139,6 +143,208 @@ theorem rotation_agrees_example :
     (((V2.init.run ops).1).step (.all ss0)).2 = .keys [3, 2] ∧
     (((V2.init.run ops).1).step (.cur ss0)).2 = .key 3 := by decide +kernel
 
+/-! ## refinement: the v1 store (no cache) shows exactly what the specification prescribes -/
+
+/-- **The lifted specification is the specification.** `Spec.stepApi` (the specification over the
+whole operation alphabet, used by the refinement theorems) moves the state exactly like `Spec.step`
+on every operation Acra's API has, and shows `Spec.step`'s observation for generate, read current
+(the poison pair as `pair g g`), read all and destroy. What it adds is only what the API shows of
+the same state for the public key and the two listings. -/
+theorem spec_lifting_conservative (fmt : Fmt) (st : Spec) (o : Op) (h : o.inApi = true) :
+    (Spec.stepApi fmt st o).1 = (Spec.step st o).1 ∧
+    (match o with
+      | .gen _ | .all _ | .drot _ _ | .dcur _ => (Spec.stepApi fmt st o).2 = (Spec.step st o).2
+      | .cur s => if s.kind = .pp then
+            (Spec.stepApi fmt st o).2 = (match (Spec.step st o).2 with | .key g => .pair g g | x => x)
+          else (Spec.stepApi fmt st o).2 = (Spec.step st o).2
+      | _ => True) :=
+  ⟨Spec.stepApi_state fmt st o h, Spec.stepApi_obs fmt st o h⟩
+
+/-- **v1_step_simulation.** One operation of the v1 keystore without cache, from any state that
+satisfies the run invariant (`V1.Inv`: per key file the current file holds the newest generation and
+the history directory the older survivors in order; public files mirror private ones), other than
+destroy-current: the invariant holds again, the abstraction function `V1.abs` commutes with the step,
+and the store shows exactly the specification's observation. -/
+theorem v1_step_simulation (st : V1) (o : Op) (hinv : st.Inv) (ho : o.isDcur = false) :
+    (st.step o).1.Inv ∧ (st.step o).1.abs = (Spec.stepApi .v1 st.abs o).1 ∧
+    (st.step o).2 = (Spec.stepApi .v1 st.abs o).2 :=
+  V1.step_sim st o hinv ho
+
+/-- **v1_refines_spec.** For every finite sequence of operations on a fresh v1 keystore without
+cache – generate/rotate, read current, read public, read all, list, list rotated, destroy rotated by
+any index, reset, reopen, on any slots; *excluding destroy-current* (known finding, see
+`current_is_newest_survivor_counterexample`) – every observation of the run equals the
+specification's, and the abstraction of the final store is the specification's final state. Hence:
+the current key is the most recently generated surviving one, all survivors are offered newest first,
+the rotated listing numbers them from 2, and destroy-by-listed-index removes exactly the listed key. -/
+theorem v1_refines_spec (ops : List Op) (hops : ∀ o ∈ ops, o.isDcur = false) :
+    ((V1.init (-1)).run ops).2 = (Spec.runApi .v1 Spec.init ops).2 ∧
+    ((V1.init (-1)).run ops).1.abs = (Spec.runApi .v1 Spec.init ops).1 := by
+  have h := V1.run_sim ops (V1.init (-1)) V1.Inv.init hops
+  have habs : (V1.init (-1)).abs = Spec.init := rfl
+  rw [habs] at h
+  exact ⟨h.2.2, h.2.1⟩
+
+/-- The same for a single symmetric-key slot, in the specification's own words: after any such run,
+reading the current key of the slot gives the newest surviving generation and read-all gives all
+survivors newest first. -/
+theorem v1_current_is_newest_survivor (ops : List Op) (hops : ∀ o ∈ ops, o.isDcur = false) (s : Slot)
+    (hk : s.kind = .ss) :
+    let spec := (Spec.runApi .v1 Spec.init ops).1
+    let st := ((V1.init (-1)).run ops).1
+    (st.step (.cur s)).2 = (match (spec s).survivors.getLast? with | some g => .key g | none => .err) ∧
+    (st.step (.all s)).2 = (if (spec s).survivors = [] then .err else .keys (spec s).survivors.reverse) := by
+  have h := V1.run_sim ops (V1.init (-1)) V1.Inv.init hops
+  have habs : (V1.init (-1)).abs = Spec.init := rfl
+  rw [habs] at h
+  obtain ⟨hinv, ha, _⟩ := h
+  have h1 := (V1.step_sim _ (.cur s) hinv rfl).2.2
+  have h2 := (V1.step_sim _ (.all s) hinv rfl).2.2
+  rw [ha] at h1 h2
+  simp only
+  rw [h1, h2]
+  constructor
+  · simp only [Spec.stepApi, hk, SpecSlot.current]
+    cases ((Spec.runApi Fmt.v1 Spec.init ops).fst s).survivors.getLast? <;> simp
+  · simp [Spec.stepApi, Spec.step, hk, SpecSlot.allNewestFirst, Kind.hasAll]
+
+/-! ## refinement: the v2 store shows exactly what the specification prescribes -/
+
+/-- **v2_step_simulation.** One operation of the v2 keystore from any state satisfying the run
+invariant (`V2.Inv`: no leftover temporary; a slot has a ring exactly when it was generated; sequence
+numbers `1..n`, key `q` carries generation `q` until destroyed, `current` is the newest key and it is
+not destroyed), other than destroy-current, that does not open a never-generated ring read-write
+(`Op.opensRW`: the poison readers and every destroy create an empty ring – known finding
+`v2:ring-without-current-key`), destroy-rotated being called with a listed index `≥ 2`: the invariant
+holds again, `V2.abs` commutes with the step and the store shows the specification's observation. -/
+theorem v2_step_simulation (st : V2) (o : Op) (hinv : st.Inv) (ho : o.isDcur = false)
+    (hrw : ∀ s, o.opensRW = some s → st.count s ≠ 0) (hidx : o.idxOk = true) :
+    (st.step o).1.Inv ∧ (st.step o).1.abs = (Spec.stepApi .v2 st.abs o).1 ∧
+    (st.step o).2 = (Spec.stepApi .v2 st.abs o).2 ∧ (st.step o).1.count = countStep st.count o :=
+  V2.step_sim st o hinv ho hrw hidx
+
+/-- **v2_refines_spec.** For every finite sequence of operations on a fresh v2 keystore (in-memory or
+directory back end) – generate/rotate, read current, read public, read all, list, list rotated,
+destroy rotated by listed index, reset, reopen, on any slots – *excluding* (1) destroy-current (known
+finding, `current_is_newest_survivor_counterexample`), (2) reads of a poison slot and destroy-rotated
+of any slot *before the first generation of that slot* (`genFirst`: these open the ring read-write
+and leave an empty ring without current key behind – known finding `v2:ring-without-current-key`,
+`v2_ringless_counterexample`), (3) destroy-rotated with an index below 2, which the listing never
+shows (Acra's command line routes index 1 to destroy-current; the Go function indexes a slice with
+`index-2`): every observation of the run equals the specification's and the abstraction of the final
+store is the specification's final state. -/
+theorem v2_refines_spec (ops : List Op) (hops : ∀ o ∈ ops, o.isDcur = false ∧ o.idxOk = true)
+    (hgf : genFirst (fun _ => false) ops = true) :
+    (V2.init.run ops).2 = (Spec.runApi .v2 Spec.init ops).2 ∧
+    (V2.init.run ops).1.abs = (Spec.runApi .v2 Spec.init ops).1 := by
+  have h := V2.run_sim ops V2.init (fun _ => false) V2.Inv.init (by intro s hs; cases hs) hops hgf
+  have habs : V2.init.abs = Spec.init := rfl
+  rw [habs] at h
+  exact ⟨h.2.2, h.2.1⟩
+
+def pp0 : Slot := ⟨.pp, 0⟩
+
+/-- **v2_ringless_counterexample** (known finding `v2:ring-without-current-key`). Hypothesis (2) of
+`v2_refines_spec` is needed: reading the poison key pair of a fresh store, or a destroy-rotated on a
+slot that was never generated, creates an empty ring; afterwards `ListKeys` fails for the whole store
+(the specification lists nothing, successfully), and read-all of the never-generated symmetric slot
+answers with an empty list instead of an error.
+Protocol: `C06.v2m c:pp l` → `err|err`; `C06.v2m dr:ss0:2 a:ss0 l` → `err|ok:-|err`. -/
+theorem v2_ringless_counterexample :
+    (V2.init.run [.cur pp0, .list]).2 = [.err, .err] ∧
+    (Spec.runApi .v2 Spec.init [.cur pp0, .list]).2 = [.err, .files []] ∧
+    (V2.init.run [.drot ss0 2, .all ss0, .list]).2 = [.err, .keys [], .err] ∧
+    (Spec.runApi .v2 Spec.init [.drot ss0 2, .all ss0, .list]).2 = [.err, .err, .files []] := by decide +kernel
+
+/-! ## the v1 key cache -/
+
+def sp0 : Slot := ⟨.sp, 0⟩
+
+/-- **cache_storage_independent.** The storage (every key file, history directory, temporary) and the
+generation counters after any run – destroy-current included – are the same for every cache size
+(`-1` none, `0` unbounded, `n` bounded): write operations compute their storage calls from the storage
+alone. -/
+theorem cache_storage_independent (c : Int) (ops : List Op) :
+    ((V1.init c).run ops).1.fs = ((V1.init (-1)).run ops).1.fs ∧
+    ((V1.init c).run ops).1.count = ((V1.init (-1)).run ops).1.count :=
+  V1.run_fs ops _ _ rfl rfl
+
+/-- **cache_write_obs_independent.** The outcome of generate, destroy-current, destroy-rotated and
+the two listings never depends on the cache contents. -/
+theorem cache_write_obs_independent (st su : V1) (o : Op) (hfs : st.fs = su.fs) (hcnt : st.count = su.count)
+    (ho : o.isRead = false) : (st.step o).2 = (su.step o).2 :=
+  V1.step_obs_write st su o hfs hcnt ho
+
+/-- **cache_coherent_step.** From a state whose cache is coherent with the storage (`V1.Coh`; an
+empty cache is), any operation other than generate and destroy-current keeps the cache coherent and
+shows exactly what the store without cache shows on the same storage – for every cache size, with
+evictions. -/
+theorem cache_coherent_step (st : V1) (o : Op) (hc : st.Coh) (ho : o.keepsCoh = true) :
+    (st.step o).1.Coh ∧ (st.step o).2 = (V1.step ⟨st.fs, none, st.count⟩ o).2 :=
+  V1.step_coh st o hc ho
+
+/-- **cache_reset_exact.** For every cache size `c`, every history `h` (any operations, destroy-current
+included) and every continuation `rs` made of reads (current, public, all), listings, destroy-rotated,
+resets and reopens: after `Reset`, the cached store shows on `rs` exactly what the store without
+cache shows after the same history. Together with `v1_refines_spec` (for `h` without destroy-current)
+these are the specification's observations. The continuation must not generate or destroy-current:
+see `cache_stale_after_rotation_counterexample`. -/
+theorem cache_reset_exact (c : Int) (h rs : List Op) (hrs : ∀ o ∈ rs, o.keepsCoh = true) :
+    ((((V1.init c).run h).1.step .reset).1.run rs).2 = (((V1.init (-1)).run h).1.run rs).2 := by
+  obtain ⟨hfs, hcnt⟩ := cache_storage_independent c h
+  exact V1.run_coh rs (((V1.init c).run h).1.step .reset).1 ((V1.init (-1)).run h).1 hfs hcnt (V1.Coh.clear _)
+    (V1.Coh.of_nocache (V1.run_sim_cache_none h (V1.init (-1)) rfl)) hrs
+
+/-- **cache_stale_after_rotation_counterexample.** Why `cache_reset_exact` stops at the next
+generation: the handle that rotates a key keeps serving what it cached before.
+(1) symmetric key: `C06.v1 0 g:ss0 x c:ss0 g:ss0 c:ss0 a:ss0` → `…|ok:1|ok:1.1` – the old key stays
+current and the new key 2 is not offered at all (without cache: `ok:2|ok:2.1`);
+(2) storage public key: `C06.v1 0 g:sp0 x p:sp0 g:sp0 p:sp0 c:sp0` → public key 1 with private key 2;
+(3) a destroyed rotated key that is cached as "current" is still offered:
+`C06.v1 0 g:ss0 g:ss0 g:ss0 x c:ss0 g:ss0 dr:ss0:4 a:ss0 x a:ss0` → `ok:3.2.1` then `ok:4.2.1`.
+All three heal at `Reset` and none makes a surviving key that was offered disappear (`cache_monotone`). -/
+theorem cache_stale_after_rotation_counterexample :
+    ((V1.init 0).run [.gen ss0, .reset, .cur ss0, .gen ss0, .cur ss0, .all ss0]).2 = [.ok, .ok, .key 1, .ok, .key 1, .keys [1, 1]] ∧
+    ((V1.init (-1)).run [.gen ss0, .reset, .cur ss0, .gen ss0, .cur ss0, .all ss0]).2 = [.ok, .ok, .key 1, .ok, .key 2, .keys [2, 1]] ∧
+    ((V1.init 0).run [.gen sp0, .reset, .pub sp0, .gen sp0, .pub sp0, .cur sp0]).2 = [.ok, .ok, .key 1, .ok, .key 1, .key 2] ∧
+    ((V1.init 0).run [.gen ss0, .gen ss0, .gen ss0, .reset, .cur ss0, .gen ss0, .drot ss0 4, .all ss0, .reset, .all ss0]).2 =
+      [.ok, .ok, .ok, .ok, .key 3, .ok, .ok, .keys [3, 2, 1], .ok, .keys [4, 2, 1]] := by decide +kernel
+
+/-- **cache_invariant.** What every operation other than destroy-current keeps of a cached v1 store
+(`V1.MInv`, any cache size): the storage invariant of `v1_refines_spec`; a cached "current" key of a
+slot is some generation of that slot – possibly an older one, never a foreign value or a marker –; a
+cached history entry equals its file; a cached list of names is the directory's. Moreover an
+operation changes the cached current key of a slot only by forgetting it or by setting it to the
+slot's newest generation. -/
+theorem cache_invariant (st : V1) (o : Op) (hm : st.MInv) (ho : o.isDcur = false) :
+    (st.step o).1.MInv ∧
+    ∀ s v, (st.step o).1.look (.rel (privFile s)) = some v →
+      st.look (.rel (privFile s)) = some v ∨ v = .key ((st.step o).1.count s) :=
+  V1.step_minv st o hm ho
+
+/-- **cache_monotone.** For every cache size `c` and every run without destroy-current: if a read-all
+of slot `s` offers generation `g`, and `g` still survives after any further operations `ops2` (resets
+and reopens included) – survives according to the specification run over the same operations –, then a
+read-all after `ops2` succeeds and still offers `g`. A warm cache may offer *more* (a destroyed key it
+cached as current, `cache_stale_after_rotation_counterexample` (3)) and may lack the newest generation
+until `Reset` (1), but it never stops offering a surviving key it offered before. -/
+theorem cache_monotone (c : Int) (ops1 ops2 : List Op) (s : Slot) (g : Nat) (l1 : List Nat)
+    (h1 : ∀ o ∈ ops1, o.isDcur = false) (h2 : ∀ o ∈ ops2, o.isDcur = false)
+    (hobs : (((V1.init c).run ops1).1.step (.all s)).2 = .keys l1) (hg : g ∈ l1)
+    (halive : g ∈ ((Spec.runApi .v1 Spec.init (ops1 ++ .all s :: ops2)).1 s).survivors) :
+    ∃ l2, ((((((V1.init c).run ops1).1.step (.all s)).1.run ops2).1).step (.all s)).2 = .keys l2 ∧ g ∈ l2 := by
+  have hm1 := V1.run_minv ops1 (V1.init c) (V1.MInv.init c) h1
+  apply V1.cache_monotone _ hm1 ops2 s g h2 l1 hobs hg
+  have hall : ∀ o ∈ ops1 ++ .all s :: ops2, o.isDcur = false := by
+    intro o ho
+    rcases List.mem_append.1 ho with ho | ho
+    · exact h1 o ho
+    · rcases List.mem_cons.1 ho with rfl | ho
+      · rfl
+      · exact h2 o ho
+  rw [← V1.abs_run_cached c _ hall, V1.run_append] at halive
+  exact halive
+
 /-! ## non-vacuity -/
 
 /-- A history with three generations: index 2 lists the oldest key, destroying it leaves 3 and 2. -/
@@ -152,5 +358,31 @@ example : let fs := ((V1.init (-1)).run [.gen ss0, .gen ss0, .gen ss0]).1.fs
 
 example : Ring.Distinct ⟨[⟨1, .preActive, some 1⟩, ⟨2, .preActive, some 2⟩], some 2⟩ := by
   simp [Ring.Distinct]
+
+/-- the refinement hypotheses are satisfiable by a history that uses every kind of operation, and the
+specification's observations on it are not trivial -/
+example :
+    let ops := [Op.gen sp0, .gen sp0, .gen sp0, .gen ss0, .listRot, .drot sp0 2, .all sp0, .cur sp0, .pub sp0, .list, .reopen, .all sp0]
+    (∀ o ∈ ops, o.isDcur = false ∧ o.idxOk = true) ∧ genFirst (fun _ => false) ops = true ∧
+    (Spec.runApi .v1 Spec.init ops).2 =
+      [.ok, .ok, .ok, .ok, .rotated [((sp0, false), 2), ((sp0, true), 2)], .ok, .keys [3, 2], .key 3, .key 3,
+        .files [(sp0, false), (sp0, true), (ss0, false)], .ok, .keys [3, 2]] ∧
+    (Spec.runApi .v2 Spec.init ops).2 =
+      [.ok, .ok, .ok, .ok, .rotated [((sp0, false), 2)], .ok, .keys [3, 2], .key 3, .key 3,
+        .files [(sp0, false), (ss0, false)], .ok, .keys [3, 2]] := by decide +kernel
+
+/-- the run invariants hold initially -/
+example : (V1.init (-1)).Inv ∧ V2.init.Inv ∧ (V1.init 1).MInv ∧ (V1.init 0).clear.Coh :=
+  ⟨V1.Inv.init, V2.Inv.init, V1.MInv.init 1, V1.Coh.clear _⟩
+
+/-- `cache_reset_exact`: a continuation with reads, listing and a destroy-rotated satisfies the hypothesis -/
+example : ∀ o ∈ [Op.all ss0, .listRot, .drot ss0 2, .all ss0, .cur ss0], o.keepsCoh = true := by decide
+
+/-- `cache_monotone`: a bounded cache (one entry), two generations, read-all offers `[2, 1]`; after a
+rotation and a read both keys still survive in the specification -/
+example :
+    (((V1.init 1).run [.gen ss0, .gen ss0]).1.step (.all ss0)).2 = .keys [2, 1] ∧
+    1 ∈ ((Spec.runApi .v1 Spec.init ([Op.gen ss0, .gen ss0] ++ .all ss0 :: [.gen ss0, .cur ss0])).1 ss0).survivors := by
+  decide +kernel
 
 end AcraModel.Props.C06
